@@ -128,6 +128,8 @@ J plan_to_json(const Plan& p) {
     j.set("profile", p.profile);
     j.set("policies", J::arr_of(p.pols));
     j.set("allow_missing", p.allow_missing);
+    if (p.abstract_args)
+        j.set("abstract_args", p.abstract_args);
     j.set("heap_jitter", p.heap_jitter);
     if (p.setup_events)
         j.set("setup_events", p.setup_events);
@@ -254,6 +256,7 @@ Plan plan_from_json(const J& j) {
     for (auto& x : j.at("policies").a)
         p.pols.push_back(x.s);
     p.allow_missing = (int)j.geti("allow_missing", 0);
+    p.abstract_args = (int)j.geti("abstract_args", 0);
     p.heap_jitter = (int)j.geti("heap_jitter", 0);
     p.diff = j.gets("diff", "");
     p.setup_events = (int)j.geti("setup_events", 0);
